@@ -140,7 +140,9 @@ def explore(ctx, depth):
                                 # print no separator in front of it; attributed only when that is the whole difference
                                 import re
                                 ext = kw.get('encoding') in (Encoding.eKern, Encoding.bEkern, Encoding.agnosticExtendedKern)
-                                only_sep = ext and 'ok' in got_t and 'ok' in got_r and re.sub(r'@(?=[#n-])', '', got_r['ok']) == re.sub(r'@(?=[#n-])', '', got_t['ok'])
+                                only_sep = ext and 'ok' in got_t and 'ok' in got_r and (re.sub(r'@(?=[#n-])', '', got_r['ok']) == re.sub(r'@(?=[#n-])', '', got_t['ok']) or
+                                                                                        # the new accidental followed by a signifier that the re-import reads as its display suffix (`EE-` + `X`): still only separators differ
+                                                                                        re.sub('[@\u00b7]', '', got_r['ok']) == re.sub('[@\u00b7]', '', got_t['ok']))
                                 ctx.fail({**inp, 'clause': 'transposed document = document of the transposed text, under every encoding and range',
                                           'options': {k: str(v) for k, v in kw.items()}},
                                          'an export of the transposed document (other encoding / measure range) is not the export of the imported transposed text',
